@@ -89,6 +89,9 @@ def generate(R, tier, focus):
     region = gen.gen_lattice(R, max_cells=12)
     mags = gen.gen_mags(R)
     n_ev = R.choice((0, 1, 2, R.randint(0, 15), R.randint(0, 15 if not thorough else 60)))
+    if R.random() < (0.0012 if not thorough else 0.002):
+        # a large catalog, just past the block sizes a chunked implementation would plausibly use
+        n_ev = R.choice((1025, 4097, 65537, 70001))
     mag_pool = [3.95, 4.0, 4.5, 4.95, 5.0, 5.5, 6.05]
     dep_pool = [0.0, 5.5, 10.0, 33.3, 1e-05, 2.5e-05]
     t_pool = [R.randint(MS_1900, MS_2200) for _ in range(4)] + [R.randint(MS_1900, MS_2200) // 1000 * 1000]
@@ -101,6 +104,8 @@ def generate(R, tier, focus):
         t = R.choice(t_pool) if R.random() < 0.5 else R.randint(MS_1900, MS_2200)
         events.append(['id%d' % k, t, lat, lon, R.choice(dep_pool), R.choice(mag_pool)])
     n_ops = R.randint(1, 15) if not thorough else R.randint(1, 40)
+    if n_ev > 1000:
+        n_ops = R.randint(1, 6)
     ops = []
     n_handles = 1
     default_filters = [gen_statement(R, events)[0] for _ in range(R.randint(1, 3))]
@@ -171,6 +176,11 @@ def generate(R, tier, focus):
             k = R.randint(1, 3)
             ops.append({'op': 'LOAD_APPLY', 'h': h, 'stmts': [gen_statement(R, events)[0] for _ in range(k)],
                         'with_region': R.random() < 0.6, 'actor': actor})
+    if n_ev > 1000:
+        # a large catalog is expensive: make sure it meets both kinds of filter
+        ops.insert(0, {'op': 'FILTER', 'h': 0, 'stmts': [gen_statement(R, events)[0]], 'form': 'list', 'in_place': True, 'actor': 0})
+        ops.insert(0, {'op': 'FILTER_SPATIAL', 'h': 0, 'in_place': True, 'actor': 0, 'region_arg': R.choice((1, 2)),
+                       'update_stats': False})
     return {'engine': 'catsim', 'region': region, 'region2': region2, 'bind_region': bind_region,
             'mags': mags, 'events': events, 'ops': ops,
             'default_filters': default_filters, 'tz': R.choice(TZ_CHOICES), 'clock_us': R.randint(0, 4 * 10 ** 15)}
